@@ -457,6 +457,16 @@ func init() {
 			return in.strConst(strconv.Quote(s))
 		},
 
+		"time.Now": func(in *Interp, fr *frame, fn *ssa.Function, a []Value) Value {
+			// the clock is one fixed instant (2026-01-01T00:00:00Z, no monotonic reading): harnesses that depend on
+			// elapsed time state what they set up relative to it
+			t := in.zero(fn.Signature.Results().At(0).Type())
+			if sv, ok := t.(*StructV); ok && len(sv.f) >= 2 {
+				sv.f[1] = in.tb.BV(64, 63902908800)
+			}
+			return t
+		},
+
 		"sort.Slice":       stubSortSlice,
 		"sort.SliceStable": stubSortSlice,
 
